@@ -7,6 +7,7 @@ import Nstd.Life.LemmasFault
 import Nstd.Life.LemmasCopy
 import Nstd.Life.LemmasCopyNode
 import Nstd.Life.LemmasSetSelf
+import Nstd.Life.LemmasRefine
 /-
   Property theorems of the Life area.
 
@@ -248,6 +249,35 @@ theorem set_append_self_noop (ops : List Op) (v : Nat) : step (run init ops) (.s
 theorem set_remove_self_empties (ops : List Op) (v : Nat) (hv : v ≤ 1) :
     ∃ s, stepRes (run init ops) (.sRemoveSet v v) = .ok s ∧ absNode s ⟨.S, v⟩ = [] :=
   sRemoveSelf_empty (reach_ok ops).1 (Ops.allAlive_reach ops) v hv
+
+/-- C04 `self_arg_as_if_copied`, literal refinement form: an operation whose argument is the container itself
+    yields the same value as first copy-constructing a temporary `t` from the container (the other variable
+    `1 - v` of the kind serves as `t`) and passing `t` - for every history, every position. -/
+theorem list_insert_self_refines (ops : List Op) (v : Nat) (hv : v ≤ 1) (pos : Option Nat)
+    (hp : pos.getD (absNode (run init ops) ⟨.L, v⟩).length ≤ (absNode (run init ops) ⟨.L, v⟩).length) :
+    absNode (step (run init ops) (.lInsertList v pos v)) ⟨.L, v⟩ =
+    absNode (step (step (run init ops) (.copy ⟨.L, 1 - v⟩ v)) (.lInsertList v pos (1 - v))) ⟨.L, v⟩ :=
+  Refine.list_insert_self_refines ops v hv pos hp
+
+theorem array_append_self_refines (ops : List Op) (v : Nat) (hv : v ≤ 1) :
+    absArr (step (run init ops) (.aAppendArr v v)) v =
+    absArr (step (step (run init ops) (.copy ⟨.A, 1 - v⟩ v)) (.aAppendArr v (1 - v))) v :=
+  Refine.array_append_self_refines ops v hv
+
+theorem set_append_self_refines (ops : List Op) (v : Nat) (hv : v ≤ 1) :
+    absNode (step (run init ops) (.sAppendSet v v)) ⟨.S, v⟩ =
+    absNode (step (step (run init ops) (.copy ⟨.S, 1 - v⟩ v)) (.sAppendSet v (1 - v))) ⟨.S, v⟩ :=
+  Refine.set_append_self_refines ops v hv
+
+theorem set_remove_self_refines (ops : List Op) (v : Nat) (hv : v ≤ 1) :
+    absNode (step (run init ops) (.sRemoveSet v v)) ⟨.S, v⟩ =
+    absNode (step (step (run init ops) (.copy ⟨.S, 1 - v⟩ v)) (.sRemoveSet v (1 - v))) ⟨.S, v⟩ :=
+  Refine.set_remove_self_refines ops v hv
+
+theorem map_insert_self_refines (ops : List Op) (v : Nat) (hv : v ≤ 1) :
+    absNode (step (run init ops) (.mInsertMap ⟨.M, v⟩ v)) ⟨.M, v⟩ =
+    absNode (step (step (run init ops) (.copy ⟨.M, 1 - v⟩ v)) (.mInsertMap ⟨.M, v⟩ (1 - v))) ⟨.M, v⟩ :=
+  Refine.map_insert_self_refines ops v hv
 
 /-- non-vacuity of the alias theorems: a reachable state with a full array (size 3 = capacity 3) and a list -/
 def aliasOps : List Op := [.aAppend 0 5, .aAppend 0 6, .aAppend 0 7, .lInsert 0 none 1, .lInsert 0 none 2]
